@@ -101,14 +101,16 @@ PROPS = {
         level_text="Deductive proof of the sequential generator contracts (successor function, never zero, wrap MAX->1, "
                    "start value carries time mod 2^12 in the high 12 bits) and of the closed-form/distinctness lemmas for ANY "
                    "number of draws below the counter space; atomicity obligation AT1 (read-modify-write under one lock) on the "
-                   "AST, replayed as a concrete line schedule when it fails; session-id format at the counter boundaries.",
+                   "AST, replayed as a concrete line schedule when it fails; session-id format at the counter boundaries; the "
+                   "start-time field of a session generator is the hex of int(time.time()) read at creation "
+                   "(SessionGenerator.__init__ contract over the virtual clock).",
         level_note="Interleavings are covered by lock discipline (Owicki-Gries restricted to lock-protected regions), not by "
                    "enumeration; S7 assumed.",
         explanation="sequential contracts + lemmas by SMT; AT1 structural; format ground.",
     ),
     "C05": dict(
         specs=["packer", "avp", "avp_types", "avp_grouped", "base", "node_model", "peer", "frames"],
-        ground=[],
+        ground=[ground.c15_queue_kinds],
         replay=replay.generic,
         trusted_base=["queue.Queue.get returns an arbitrary received chunk or times out (environment input)"],
         assumptions=COMMON_ASSUME + [
@@ -129,8 +131,8 @@ PROPS = {
         explanation="loop variant + step clauses + frames() lemmas.",
     ),
     "C07": dict(
-        specs=["packer", "avp", "avp_types", "avp_grouped", "base", "node_model", "peer", "helpers", "c20", "node", "c13", "c06"],
-        ground=[], replay=replay.generic,
+        specs=["packer", "avp", "avp_types", "avp_grouped", "base", "node_model", "peer", "helpers", "c20", "node", "c13", "c15", "c18", "c06"],
+        ground=[ground.c15_lock_coverage, ground.c15_queue_kinds], replay=replay.generic,
         trusted_base=["queue model (ghost log g_put = every message ever queued on the connection)"],
         assumptions=COMMON_ASSUME + [
             "handlers are serialized (S5): interleavings between application threads and the read thread are not decided",
@@ -311,10 +313,11 @@ PROPS = {
     ),
     "C15": dict(
         specs=["packer", "avp", "avp_types", "avp_grouped", "base", "node_model", "peer", "helpers", "c20", "family", "node", "c13", "c15", "c18"],
-        ground=[ground.c15_lock_coverage, ground.c15_soft_errors], replay=replay.generic,
+        ground=[ground.c15_lock_coverage, ground.c15_soft_errors, ground.c15_queue_kinds], replay=replay.generic,
         trusted_base=["`with Lock` is mutual exclusion; a single attribute load/store is atomic (S7)",
                       "socket.send accepts a prefix of 0..len bytes of the buffer it is given, or fails (T-sock)",
-                      "queue.Queue is FIFO (messages are dequeued in queueing order)"],
+                      "queue.Queue is FIFO (messages are dequeued in queueing order) - that the hand-over queues ARE "
+                      "queue.Queue objects is a ground (AST) obligation, C15.struct.fifo"],
         assumptions=COMMON_ASSUME + [
             "interleavings are covered by lock discipline plus a rely condition, not enumerated: the I/O-loop slice is verified "
             "under the interference 'the write buffer may grow at its end whenever it is read without write_lock and whenever "
@@ -339,8 +342,9 @@ PROPS = {
         trusted_base=["thread join / sleep are environment steps during which the I/O thread may close connections"],
         assumptions=COMMON_ASSUME + [
             "NOT DECIDED (liveness/timing): that the I/O thread finishes within the join timeout, hence 'when stop returns every "
-            "peer socket is closed' and 'all worker threads terminate'; the stop branch at the top of _handle_connections is not "
-            "under contract",
+            "peer socket is closed' and 'all worker threads terminate' - what IS proved is the step the I/O thread performs once "
+            "it sees the stop flag (slice `if _thread.is_stopped:` of _handle_connections): every registered connection is "
+            "closed and leaves the table and nothing escapes",
             "behavioural contract of Application.stop (ghost flag); ownership of sequence generators"],
         level_text="Deductive proof of the safety clauses of shutdown on the real code: stop(force=False) sends a DPR with cause "
                    "REBOOTING to exactly the connections that are READY/READY_WAITING_DWA and leaves them DISCONNECTING "
@@ -348,8 +352,12 @@ PROPS = {
                    "application stopped when stop returns, a second stop / stop before start is refused without effect; a "
                    "connection arriving while stopping is refused and released without touching any table (C13 contract); no "
                    "watchdog is sent and nobody is dialled while stopping (_check_timers, _reconnect_peers); a DPA moves the "
-                   "connection to CLOSING and the I/O-loop slice closes a CLOSING connection (clean disconnect) only when its "
-                   "write buffer is empty.",
+                   "connection to CLOSING and the I/O-loop slices (send branch, interrupt-pipe branch) close a CLOSING connection "
+                   "(clean disconnect) exactly when its write buffer is empty; the shutdown step of the I/O thread (slice of "
+                   "_handle_connections) closes and releases every registered connection and raises nothing (a live dictionary "
+                   "view whose key set changes during iteration is a RuntimeError outcome in the verifier); "
+                   "ThreadingApplication.stop tells both consumer threads to stop and runs the base class' stop, which wakes "
+                   "every blocked sender.",
         level_note="Safety only; termination and timing are not decided.",
         explanation="contracts of stop(), the stopping guards and the flush branch.",
     ),
@@ -374,7 +382,7 @@ PROPS = {
         explanation="release postconditions per function.",
     ),
     "C06": dict(
-        specs=["packer", "avp", "avp_types", "avp_grouped", "base", "node_model", "peer", "helpers", "c20", "family", "node", "c13", "c06"],
+        specs=["packer", "avp", "avp_types", "avp_grouped", "base", "node_model", "peer", "helpers", "c20", "family", "node", "c13", "c15", "c18", "c06"],
         ground=[], replay=replay.generic,
         trusted_base=["time.time() non-decreasing"],
         assumptions=COMMON_ASSUME + [
@@ -432,3 +440,9 @@ PROPS = {
                     "generate/assign round trip of C03 is covered by a bounded stand-in only (coverage.bounded), by no obligation.",
     ),
 }
+
+# the structural fact "Node's tables are distinct objects" (specs/node_model.py) is assumed wherever Node objects occur: its
+# ground obligation is part of every check that loads the node contracts
+for _pid, _cfg in PROPS.items():
+    if "node" in _cfg["specs"] and ground.c13_tables_assigned_once not in _cfg["ground"]:
+        _cfg["ground"] = list(_cfg["ground"]) + [ground.c13_tables_assigned_once]
